@@ -69,14 +69,14 @@ class Ctx:
 
     # rules whose instances are rows of a decision table checked against a stated contract: indifferent to how the
     # function is written, so they keep their verdict on a re-written function
-    TABLE_SPECS = {"C09.R2", "C16.R6", "C02.R7", "C01.R10", "C02.R12", "C01.R14", "C08.R5", "C07.R5", "C06.R5", "C01.R4", "C02.R3", "C02.R4", "C12.R14", "C02.R6", "C17.R3", "C07.R2", "C12.R4", "C06.R4", "C04.R4", "C03.R11", "C08.R6", "C11.R9", "C18.R8", "C06.R1", "C06.R2", "C06.R6", "C12.R1", "C12.R2", "C12.R5", "C12.R10", "C12.R11",
+    TABLE_SPECS = {"C03.R13", "C09.R2", "C16.R6", "C02.R7", "C01.R10", "C02.R12", "C01.R14", "C08.R5", "C07.R5", "C06.R5", "C01.R4", "C02.R3", "C02.R4", "C12.R14", "C02.R6", "C17.R3", "C07.R2", "C12.R4", "C06.R4", "C04.R4", "C03.R11", "C08.R6", "C11.R9", "C18.R8", "C06.R1", "C06.R2", "C06.R6", "C12.R1", "C12.R2", "C12.R5", "C12.R10", "C12.R11",
                    "C04.R1", "C01.R13", "C17.R7", "C04.R2", "C13.R8", "C14.R4", "C04.R3", "C17.R5", "C04.R6", "C18.R7", "C01.R2", "C02.R9", "C01.R6", "C02.R11", "C03.R8", "C12.R12", "C12.R13", "C11.R11", "C18.R11", "C04.R11", "C09.R2", "C16.R6", "C07.R1", "C05.R0", "C03.R3", "C16.R2", "C07.R4", "C18.R4", "C13.R2", "C04.R10", "C06.R10", "C11.R10", "C13.R4", "C13.R7", "C08.R7", "C11.R6", "C12.R7", "C18.R3", "C09.R1", "C06.R7", "C16.R5", "C11.R5", "C13.R1"}
 
     # census rules: they list every construct of a kind in the package (a store to a shared object, a shrinking operation
     # on an association map, an order-dependent value reaching an output ...).  What they find is a fact about a
     # statement, whatever the style of the function around it; only a function the snapshot does not know at all may
     # be a moved piece of an allowed writer
-    CENSUS = {"C15.R1", "C08.R2", "C08.R3", "C04.R8", "C12.R6", "C14.R3", "C18.R6", "C08.R4", "C08.R8", "C14.R1", "C16.R1", "C16.R3", "C10.R1", "C15.R1", "C15.R2"}
+    CENSUS = {"C15.R1", "C08.R2", "C08.R3", "C04.R8", "C12.R6", "C14.R3", "C18.R6", "C18.R12", "C08.R4", "C08.R8", "C14.R1", "C16.R1", "C16.R3", "C10.R1", "C15.R1", "C15.R2"}
 
     def violation(self, key, msg, loc="", **detail):
         if self.rule not in self.TABLE_SPECS:
